@@ -1,7 +1,7 @@
 (* C08 — treespec inspection, constructors, transform and compose are consistent.
    Statements only; proofs in proofs/SpecProofs.v and proofs/InspectProofs.v. *)
-From OptreeModel Require Import Base Tree Flatten Unflatten Spec ArraySpec Construct ComposeArr.
-From OptreeProofs Require Import SpecProofs InspectProofs ArrayProofs ConstructProofs ComposeArrProofs.
+From OptreeModel Require Import Base Tree Flatten Unflatten Spec ArraySpec Construct ComposeArr TransformArr.
+From OptreeProofs Require Import SpecProofs InspectProofs ArrayProofs ConstructProofs ComposeArrProofs TransformArrProofs.
 
 (* Every treespec flatten returns is the post-order encoding of a well-formed structured treespec
    (arity, num_leaves and num_nodes consistent at every node) whose leaf count is the number of
@@ -155,3 +155,14 @@ Theorem C08_compose_nodes :
   st_nodes (st_compose a b) = (st_nodes a - st_leaves a + st_leaves a * st_nodes b)%nat.
 Proof. exact compose_nodes. Qed.
 Print Assumptions C08_compose_nodes.
+
+(* PyTreeSpec::Transform as treespec.cpp runs it, for f_node absent and f_leaf returning a fixed
+   treespec: the forward pass with its stack of pending (num_leaves, num_nodes) pairs returns the
+   encoding of the tree-level transform (= composition), with the same option errors and the same
+   "no leaf, nothing checked" short cut *)
+Theorem C08_cpp_transform_pass :
+  forall a b, wf_stree (stree_of a) = true -> wf_stree (stree_of b) = true ->
+  arr_transform_leaves (spec_of a) (spec_of b) =
+  match ss_transform_leaves a (Some b) with Ok j => Ok (spec_of j) | Err e => Err e end.
+Proof. exact arr_transform_leaves_spec. Qed.
+Print Assumptions C08_cpp_transform_pass.
